@@ -18,12 +18,12 @@ impl Group for E2eGroup {
     fn fixed(&self, _tier: &str) -> Vec<Case> {
         let l = |s: &str| Case { lines: vec![s.to_string()] };
         let all = vec![
-            l("e2e echo socks_ip 5000 2"), l("e2e echo socks_domain 100 1"), l("e2e echo direct 70000 3"), l("e2e echo http 20000 4"), l("e2e echo socks_ip 8192 5"), l("e2e echo http 8193 6"),
+            l("e2e echo socks_ip 5000 2"), l("e2e echo socks_domain 100 1"), l("e2e echo direct 70000 3"), l("e2e echo http 20000 4"), l("e2e echo socks_ip 8192 5"), l("e2e echo http 8193 6"), l("e2e echo socks_ip6 3000 1"),
             l("e2e halfclose socks 1000"), l("e2e halfclose direct 10"), l("e2e targetclose socks 2000"),
             l("e2e refused socks"), l("e2e reuse 6"), l("e2e reaper"),
             l("e2e badpreamble bitflip"), l("e2e badpreamble random"), l("e2e badpreamble truncated"), l("e2e badpreamble good"),
             l("e2e badpreamble good 1"), l("e2e badpreamble trimmed 1"), l("e2e badpreamble good 3"), l("e2e badpreamble trimmed 5"), l("e2e badpreamble lower 10"),
-            l("e2e pushe2e"), l("e2e udp 1 100 1472 9000"), l("e2e early socks 300"),
+            l("e2e pushe2e"), l("e2e preamble 77"), l("e2e udp 1 100 1472 9000"), l("e2e early socks 300"),
             l("e2e slow up direct 6000000"), l("e2e slow down socks 6000000"), l("e2e slow up socks 3000000"), l("e2e slow down http 3000000"), l("e2e slow up http 3000000"),
             l("e2e blackhole all"), l("e2e noname"), l("e2e certreload BxCtAmB"), l("e2e certreload xBEC"),
         ];
@@ -32,7 +32,7 @@ impl Group for E2eGroup {
 
     fn generate(&self, rng: &mut Rng, _tier: &str, _idx: u64) -> Case {
         let line = match rng.below(12) {
-            0..=2 => format!("e2e echo {} {} {}", rng.pick(&["socks_ip", "socks_domain", "direct", "http"]), rng.pick(&[1usize, 100, 4096, 8191, 8192, 8193, 16384, 65535, 65536, 200000, 1000000]), rng.range(1, 9)),
+            0..=2 => format!("e2e echo {} {} {}", rng.pick(&["socks_ip", "socks_domain", "direct", "http", "socks_ip6"]), rng.pick(&[1usize, 100, 4096, 8191, 8192, 8193, 16384, 65535, 65536, 200000, 1000000]), rng.range(1, 9)),
             3 => format!("e2e halfclose {} {}", rng.pick(&["socks", "direct"]), rng.pick(&[0usize, 1, 5000, 200000])),
             4 => format!("e2e targetclose socks {}", rng.pick(&[0usize, 1, 5000, 200000])),
             5 => format!("e2e reuse {}", rng.range(2, 12)),
@@ -48,7 +48,7 @@ impl Group for E2eGroup {
             let only = std::env::var("VH_ONLY").unwrap_or_default();
             let first = only.split(',').next().unwrap_or("echo").to_string();
             let alt = match first.as_str() {
-                "echo" => format!("e2e echo {} {} {}", rng.pick(&["socks_ip", "socks_domain", "direct", "http"]), rng.pick(&[1usize, 100, 4096, 8191, 8192, 8193, 16384, 65535, 65536, 200000, 1000000]), rng.range(1, 9)),
+                "echo" => format!("e2e echo {} {} {}", rng.pick(&["socks_ip", "socks_domain", "direct", "http", "socks_ip6"]), rng.pick(&[1usize, 100, 4096, 8191, 8192, 8193, 16384, 65535, 65536, 200000, 1000000]), rng.range(1, 9)),
                 "halfclose" => format!("e2e halfclose {} {}", rng.pick(&["socks", "direct"]), rng.pick(&[0usize, 1, 5000, 200000])),
                 "targetclose" => format!("e2e targetclose socks {}", rng.pick(&[0usize, 1, 5000, 200000])),
                 "reuse" => format!("e2e reuse {}", rng.range(2, 12)),
@@ -59,6 +59,7 @@ impl Group for E2eGroup {
                 "slow" => format!("e2e slow {} {} {}", rng.pick(&["up", "down"]), rng.pick(&["socks", "http", "direct"]), rng.pick(&[1_000_000usize, 3_000_000, 6_000_000, 12_000_000])),
                 "blackhole" => format!("e2e blackhole {}", rng.pick(&["socks", "http", "direct"])),
                 "noname" => "e2e noname".to_string(),
+                "preamble" => format!("e2e preamble {}", rng.range(31, 900)),
                 "certreload" => format!("e2e certreload {}", (0..rng.range(1, 8)).map(|_| *rng.pick(&["A", "B", "C", "x", "t", "m", "E"])).collect::<String>()),
                 "reaper" => "e2e reaper".to_string(),
                 _ => "e2e pushe2e".to_string(),
@@ -119,6 +120,7 @@ async fn scenario(t: &[String]) -> Res {
         ["e2e", "badpreamble", kind] => badpreamble(kind, 0).await,
         ["e2e", "badpreamble", kind, pwi] => badpreamble(kind, pwi.parse().map_err(|_| "pwi")?).await,
         ["e2e", "pushe2e"] => pushe2e().await,
+        ["e2e", "preamble", k] => preamble2(k.parse().map_err(|_| "k")?).await,
         ["e2e", "udp", sizes @ ..] => udp(&sizes.iter().filter_map(|x| x.parse().ok()).collect::<Vec<usize>>()).await,
         ["e2e", "early", "socks", n] => early(n.parse().map_err(|_| "n")?).await,
         _ => Err("unknown scenario".into()),
@@ -129,16 +131,29 @@ fn pattern(n: usize, tag: u8) -> Vec<u8> { (0..n).map(|i| (i as u32).wrapping_mu
 
 async fn echo(via: &str, n: usize, k: u8) -> Res {
     let w = World::start(None, None, pool_default(), true).await?;
-    let ip = format!("127.0.0.{}", k.max(1));
+    // socks_ip6 / http6: the target listens on the IPv6 loopback only (a destination of the special form ::/96)
+    let v6 = via.ends_with('6');
+    if v6 && std::net::TcpListener::bind("[::1]:0").is_err() { return Err("no IPv6 loopback on this host".into()); }
+    let ip = if v6 { "[::1]".to_string() } else { format!("127.0.0.{}", k.max(1)) };
     let target = Target::start(&ip, Mode::Echo).await;
     let decoy = Target::start("127.0.0.1", Mode::Echo).await;
     let mut fails = vec![];
     let data = pattern(n, k);
     let got: Vec<u8>;
     match via {
-        "socks_ip" | "socks_domain" => {
-            let ipb: Vec<u8> = ip.split('.').map(|x| x.parse::<u8>().unwrap()).collect();
-            let mut s = if via == "socks_ip" { socks_connect(w.socks.unwrap(), 1, &ipb, target.addr.port()).await? } else { socks_connect(w.socks.unwrap(), 3, ip.as_bytes(), target.addr.port()).await? };
+        "socks_ip" | "socks_domain" | "socks_ip6" => {
+            let ipb: Vec<u8> = if v6 { std::net::Ipv6Addr::LOCALHOST.octets().to_vec() } else { ip.split('.').map(|x| x.parse::<u8>().unwrap()).collect() };
+            let r = if via == "socks_ip" { socks_connect(w.socks.unwrap(), 1, &ipb, target.addr.port()).await } else if v6 { socks_connect(w.socks.unwrap(), 4, &ipb, target.addr.port()).await } else { socks_connect(w.socks.unwrap(), 3, ip.as_bytes(), target.addr.port()).await };
+            let mut s = match r {
+                Ok(s) => s,
+                Err(e) if e.starts_with("reply ") => {
+                    // O (C16/C10): the requested target is listening and reachable from the server
+                    fails.push(fail("valid_connect_refused/socks5", format!("CONNECT to the listening target {} was answered with failure ({e}); the target accepted {} connections", target.addr, target.accepted.load(Ordering::SeqCst))));
+                    w.stop().await;
+                    return Ok((format!("refused {e}"), fails));
+                }
+                Err(e) => return Err(e),
+            };
             let d2 = data.clone();
             let (mut rd, mut wr) = s.split();
             let wfut = async { let _ = wr.write_all(&d2).await; };
@@ -630,6 +645,75 @@ async fn pushe2e() -> Res {
     let distinct = { let mut v: Vec<u64> = md5s.iter().map(|x| x.0).collect(); v.dedup(); v.len() };
     w.stop().await;
     Ok((format!("sessions={distinct} adopted={}", md5s.iter().filter(|x| x.1 == want).count()), fails))
+}
+
+/// the preamble of a session dialled after a push: a hand-made TLS server reads the plaintext the client sends.
+/// Connection 1: the preamble is read, a scheme B whose line 0 is `k-k` is pushed, the server hangs up.
+/// Connection 2 (dialled afresh for the next request): its Settings must announce B and its preamble must carry
+/// exactly k bytes of padding (line 0 of the scheme that session runs).
+async fn preamble2(k: usize) -> Res {
+    let scheme_b = format!("stop=3\n0={k}-{k}\n1=300-300\n2=300-300");
+    let want_md5 = format!("{:x}", md5::compute(scheme_b.as_bytes()));
+    let listener = tokio::net::TcpListener::bind("127.0.0.1:0").await.map_err(|e| e.to_string())?;
+    let addr = listener.local_addr().map_err(|e| e.to_string())?;
+    let acceptor = tokio_rustls::TlsAcceptor::from(anytls_rs::util::tls::create_server_config().map_err(|e| e.to_string())?);
+    let (tx, mut rx) = tokio::sync::mpsc::unbounded_channel::<(usize, usize, String)>();
+    let sb = scheme_b.clone();
+    let srv = tokio::spawn(async move {
+        async fn read_preamble<R: AsyncReadExt + Unpin>(r: &mut R) -> Option<usize> {
+            let mut hash = [0u8; 32]; r.read_exact(&mut hash).await.ok()?;
+            let mut len = [0u8; 2]; r.read_exact(&mut len).await.ok()?;
+            let len = u16::from_be_bytes(len) as usize;
+            let mut pad = vec![0u8; len]; r.read_exact(&mut pad).await.ok()?;
+            Some(len)
+        }
+        async fn read_frame<R: AsyncReadExt + Unpin>(r: &mut R) -> Option<(u8, Vec<u8>)> {
+            let mut head = [0u8; 7]; r.read_exact(&mut head).await.ok()?;
+            let len = u16::from_be_bytes([head[5], head[6]]) as usize;
+            let mut data = vec![0u8; len]; r.read_exact(&mut data).await.ok()?;
+            Some((head[0], data))
+        }
+        for n in 1..=2usize {
+            let Ok((tcp, _)) = listener.accept().await else { return };
+            let Ok(mut conn) = acceptor.accept(tcp).await else { return };
+            let Some(len) = read_preamble(&mut conn).await else { return };
+            if n == 1 {
+                let _ = tx.send((1, len, String::new()));
+                conn.write_all(&crate::g_frame::ref_encode(6, 0, sb.as_bytes())).await.ok();
+                conn.flush().await.ok();
+                tokio::time::sleep(Duration::from_millis(200)).await;
+                let _ = conn.shutdown().await;
+            } else {
+                let mut md5 = String::new();
+                for _ in 0..8 {
+                    let Some((cmd, data)) = read_frame(&mut conn).await else { break };
+                    if cmd == 4 { md5 = String::from_utf8_lossy(&data).lines().find_map(|l| l.strip_prefix("padding-md5=").map(|x| x.to_string())).unwrap_or_default(); break; }
+                }
+                let _ = tx.send((2, len, md5));
+                tokio::time::sleep(Duration::from_secs(2)).await;
+            }
+        }
+    });
+    let client = client_for(&addr.to_string(), pool_default(), std::sync::Arc::new(anytls_rs::padding::PaddingFactory::new(b"stop=3\n0=30-30\n1=100-200\n2=100-200")?));
+    let mut fails = vec![];
+    let s1 = client.create_stream().await.map_err(|e| e.to_string())?;
+    let first = tokio::time::timeout(GUARD, rx.recv()).await.map_err(|_| "no first preamble")?.ok_or("server gone")?;
+    let _ = wait_until(GUARD, || s1.is_closed()).await;
+    // the push has been processed before the hang-up was (same byte stream): the next session is dialled afresh
+    let s2 = client.create_stream().await.map_err(|e| e.to_string())?;
+    let (stream, _rx) = s2.open_stream().await.map_err(|e| e.to_string())?;
+    s2.disable_buffering();
+    let _ = s2.write_data_frame(stream.id(), bytes::Bytes::from_static(b"hello")).await;
+    let second = tokio::time::timeout(GUARD, rx.recv()).await.map_err(|_| "no second preamble")?.ok_or("server gone")?;
+    if second.2 != want_md5 {
+        fails.push(fail("new_session_ignores_pushed_scheme/e2e_later_session", format!("the session dialled after the push announces scheme md5 {}, the pushed scheme is md5 {want_md5}", second.2)));
+    } else if second.1 != k {
+        // O (C05): the preamble carries exactly the padding length of line 0 of the scheme the session runs
+        fails.push(fail("preamble_padding_not_line0/later_session", format!("the session dialled after the push runs the pushed scheme (line 0 = {k}-{k}) but its preamble carries {} bytes of padding", second.1)));
+    }
+    client.stop_session_pool_cleanup().await;
+    srv.abort();
+    Ok((format!("first={} second={} announced_pushed={}", if first.1 > 0 { "padded" } else { "bare" }, second.1, (second.2 == want_md5) as u8), fails))
 }
 
 async fn udp(sizes: &[usize]) -> Res {
